@@ -74,7 +74,7 @@ if __name__ == '__main__':
     dirs = []
     for pid in pids:
         dirs += sorted(d for d in glob.glob('/tmp/seed6/%s/out/[0-9]*' % pid) if os.path.isdir(d))
-    with ThreadPoolExecutor(5) as ex:
+    with ThreadPoolExecutor(8) as ex:
         res = list(ex.map(confirm, dirs))
     for r in res:
         print(json.dumps(r)[:400])
